@@ -19,9 +19,9 @@ m = dict(version=1, setup_cmd='./setup.sh',
                     baseline_off_cmd='cd /repo && /venv/bin/python -m pytest -q -p no:cacheprovider --timeout=900',
                     source_commits=[], add_only=True),
          engines=[dict(name='pbt', path='check', serves_properties=sorted(CHECKS),
-                       kind_free_text='Hypothesis strategies / stateful machines + exhaustive enumeration of small finite domains, sharded over 16 processes; oracles: ISO 18004 reference decoder (vlib/qrref.py), independent format readers (vlib/raster.py, vlib/vector.py), payload parsers')],
+                       kind_free_text='Hypothesis strategies / stateful machines + exhaustive enumeration of small finite domains + atheris (libFuzzer) coverage-guided phase in the thorough tier of C01-C08, C13, C14, sharded over 16 processes; oracles: ISO 18004 reference decoder (vlib/qrref.py), independent format readers (vlib/raster.py, vlib/vector.py), payload parsers')],
          checks=[CHECKS[i] for i in ids if i in CHECKS],
          not_applicable=[dict(property_id=i, reason=NA.get(i, 'check not built yet (work in progress)')) for i in ids if i not in CHECKS],
          notes='Genuine defects repaired in /repo as "fix:" commits (see known_findings.json, status "fixed"): ' + '; '.join(fix_commits))
-json.dump(m, open(os.path.join(HERE, 'MANIFEST.json'), 'w'), indent=1)
+json.dump(m, open(os.path.join(os.environ.get('MANIFEST_DIR', HERE), 'MANIFEST.json'), 'w'), indent=1)
 print('checks:', sorted(CHECKS), 'n/a:', [x['property_id'] for x in m['not_applicable']])
